@@ -937,7 +937,7 @@ def _check_back_arrow(G: ADMG, X, Y: set):
         if not (
             G.has_edge(X, elem, G.bidirected_edge_name) or G.has_edge(elem, X, G.directed_edge_name)
         ):
-            out.update(elem)
+            out.add(elem)
 
     return out
 
